@@ -335,6 +335,18 @@ def run_race(case, inject=None, after_complete_grace=True, collect_metrics=False
         (esrally.log, "post_configure_actor_logging", noop),
         (esrally.utils.console, "progress", lambda *a, **kw: res.progress),
     ]
+    res.tp_calls = []
+    if collect_metrics:
+        real_calculate = driver.ThroughputCalculator.calculate
+
+        def recording_calculate(self, samples, *a, **kw):
+            # observation only: what the driver's throughput calculator was fed in this post-processing run and what it emitted
+            fed = [(s.task.name, s.absolute_time, s.total_ops, s.time_period, int(s.sample_type), s.throughput is not None) for s in samples]
+            out = real_calculate(self, samples, *a, **kw)
+            res.tp_calls.append((fed, {task.name: list(values) for task, values in out.items()}))
+            return out
+
+        patches = patches + [(driver.ThroughputCalculator, "calculate", recording_calculate)]
     with kernel.patched(*patches):
         try:
             if collect_metrics:
@@ -418,16 +430,19 @@ class SimActorSystem:
 class StoreFault:
     """makes the driver's metrics store fail: on its n-th record only, or from then on (including flush/close/externalize)"""
 
-    def __init__(self, n, persistent, clock):
+    def __init__(self, n, persistent, clock, where="driver"):
         self.n = n
         self.persistent = persistent
         self.clock = clock
+        self.where = where
         self.count = 0
         self.fired_at = None
         self.tripped = False
 
     def applies(self):
-        return kernel.current_proc.get().startswith("ActorAddr-DriverActor")
+        # "driver": the store the driver writes samples to; "race-control": the store race control adds the handed-over metrics to
+        prefix = "ActorAddr-DriverActor" if self.where == "driver" else "ActorAddr-BenchmarkActor"
+        return kernel.current_proc.get().startswith(prefix)
 
     def on_add(self):
         if not self.applies():
@@ -448,7 +463,7 @@ def run_full_race(case, fault=None):
     """
     the real racecontrol.race(cfg, external=True) -> BenchmarkActor -> MechanicActor (external) + DriverActor -> ...
     fault: None | {"kind": "runner", "task","client","ordinal","outcome"} | {"kind": "param-source", "task","client","ordinal"}
-           | {"kind": "store", "n", "persistent"} | {"kind": "prep-task", "task_id"} | {"kind": "kill-worker", "index", "at"}
+           | {"kind": "store", "n", "persistent", "where": "driver" | "race-control"} | {"kind": "prep-task", "task_id"} | {"kind": "kill-worker", "index", "at"}
            | {"kind": "cancel", "at"}
     """
     import esrally.mechanic.mechanic as mechanic_module
@@ -547,7 +562,7 @@ def run_full_race(case, fault=None):
     real_close = metrics.MetricsStore.close
     extra = []
     if fault and fault["kind"] == "store":
-        store_fault = StoreFault(fault["n"], fault.get("persistent", False), clock)
+        store_fault = StoreFault(fault["n"], fault.get("persistent", False), clock, fault.get("where", "driver"))
 
         def _add(self, doc):
             store_fault.on_add()
